@@ -213,7 +213,8 @@ def describe(c):
     return {"roller": "fixed_window" if kind == 0 else "delete", "base": b, "count": cnt, "pattern": pattern,
             "env": env, "file": file,
             "initial_files": [p if isinstance(p, str) else p.decode() for p, _ in init],
-            "ops": ["roll" if o[0] == 0 else "write %r + roll" % bytes(o[1]) for o in ops]}
+            "ops": ["roll" if o[0] == 0 else "setenv %s=%s" % (o[1], o[2]) if o[0] == 2 else "somebody removes directory %s" % o[1]
+                    if o[0] == 3 else "write %r + roll" % bytes(o[1]) for o in ops]}
 
 
 def extra_checks(ctx, cases, impl_lines, model_lines):
